@@ -114,6 +114,7 @@ def run(ctx):
                          "rules and allOf on which Check succeeds: Example() is well-formed JSON (independent recogniser) and Validate(Example()) succeeds; (c) object keys containing quotes, "
                          "backslashes, control and non-ASCII characters; non-trivial = schema with a user type or a container")
     ctx.assumptions += ["Coq part: C04_self_valid_all (rule-free model accepts its own example); the example builder itself is not modelled: this property is decided by generated cases (partial)"]
+    ctx.classifiers["required_shortcut_collides_with_named_key"] = lambda case: isinstance(case, dict) and case.get("cls") == "shortcut-collision-required" and case.get("kind") == "val"
     ctx.classifiers["example_key_not_escaped"] = lambda case: isinstance(case, dict) and case.get("cls") == "keyescape"
     cases = []     # (label, harness case dict, expected example text or None, class tag)
     n = 4000 if quick else 24000
@@ -128,7 +129,7 @@ def run(ctx):
                 g[i] = [("alias", rng.sample(range(k), min(k, rng.choice([1, 2, 2, 3]))))]
         texts = [G.print_type(p)[0] for p in g]
         cases.append(("types", {"schema": texts[0], "types": [[G.name(i), t] for i, t in enumerate(texts)]}, None, "cutoff"))
-    special = ['q"uote', "back\\slash", "tab\there", "new\nline", "é", "sl/ash", "\u0001ctl", "sp ace", "uni€"]
+    special = ['q"uote', "back\\slash", "tab\there", "new\nline", "é", "sl/ash", "\u0001ctl", "sp ace", "uni€", "<b>", "a&b", "x>y"]
     for k in special:
         for kind in ("plain", "optional"):
             sk = json.dumps(k, ensure_ascii=False)
@@ -140,6 +141,22 @@ def run(ctx):
         ("shortcut", {"schema": "{\n  @k: 1\n}", "types": [["@k", '"say \\"hi\\" now"']]}, None, None),
         ("shortcut", {"schema": "{\n  @k: 1\n}", "types": [["@k", '"back\\\\slash"']]}, None, None),
         ("shortcut", {"schema": "{\n  @k: 1,\n  \"z\": 2\n}", "types": [["@k", '"tab\\there \\u00e9" // {minLength: 2}']]}, None, None),
+        ("shortcut", {"schema": "{\n  @k: 1\n}", "types": [["@k", '"say \\"hi\\""']]}, None, None),
+        ("shortcut", {"schema": "{\n  @k: 1\n}", "types": [["@k", '"\\""']]}, None, None),
+        ("shortcut", {"schema": "{\n  \"abc\": 1,\n  @k: \"s\"\n}", "types": [["@k", '"abc"']]}, None, "shortcut-collision-required"),
+        ("shortcut", {"schema": "{\n  \"abc\": 1,\n  @k: \"s\" // {optional: true}\n}", "types": [["@k", '"abc" // {minLength: 1}']]}, None, None),
+        ("shortcut", {"schema": "{\n  @k: 1\n}", "types": [["@k", '"a@b.cc" // {type: "email"}']]}, None, None),
+        ("shortcut", {"schema": "{\n  @k: 1\n}", "types": [["@k", '"2020-01-01" // {type: "date"}']]}, None, None),
+        ("shortcut", {"schema": "{\n  @k: 1\n}", "types": [["@k", '"x" // {const: true}']]}, None, None),
+        ("shortcut", {"schema": "{\n  @k: 1\n}", "types": [["@k", '"x" // {minLength: 1, nullable: true}']]}, None, None),
+        ("shortcut", {"schema": "{\n  @k: 1\n}", "types": [["@k", '"x" // {or: [{type: "string", minLength: 1}, {type: "string", regex: "x"}]}']]}, None, None),
+        ("shortcut", {"schema": "{\n  @k: 1\n}", "types": [["@k", "@k2"], ["@k2", '"x" // {minLength: 1}']]}, None, None),
+        ("or on an empty container", {"schema": '[] // {or: [{type: "array"}, {type: "string"}]}'}, None, None),
+        ("or on an empty container", {"schema": '{} // {or: [{type: "object"}, {type: "string"}]}'}, None, None),
+        ("or on an empty container", {"schema": '{\n  "k": [] // {or: [{type: "array"}, {type: "string"}]}\n}'}, None, None),
+        ("nothing", {"schema": ""}, None, None),
+        ("nothing", {"schema": " \n"}, None, None),
+        ("nothing", {"schema": "# only a comment\n"}, None, None),
         ("enum", {"schema": '"b" // {enum: @e}', "enums": [["@e", '["a", "b", 1]']]}, '"b"', None),
         ("allOf", {"schema": "{ // {allOf: \"@p\"}\n  \"own\": 1\n}", "types": [["@p", "{\n  \"inherited\": \"s\"\n}"]]}, None, None),
         ("allOf", {"schema": "{ // {allOf: [\"@p\", \"@q\"]}\n  \"own\": 1\n}", "types": [["@p", "{\n  \"a\": \"s\"\n}"], ["@q", "{\n  \"b\": 2 // {optional: true}\n}"]]}, None, None),
